@@ -114,6 +114,9 @@ type c16Op struct {
 	Author   string `json:"author"`
 	Unix     int64  `json:"unix"`
 	Payload  string `json:"payload"`
+	// label operations: the labels added / removed
+	Added   []string `json:"added,omitempty"`
+	Removed []string `json:"removed,omitempty"`
 }
 
 type c16Comment struct {
@@ -210,6 +213,12 @@ func c16RenderOp(o dag.Operation) c16Op {
 	case *bug.LabelChangeOperation:
 		out.Class = "label"
 		out.Payload = fmt.Sprintf("+%q -%q", op.Added, op.Removed)
+		for _, l := range op.Added {
+			out.Added = append(out.Added, string(l))
+		}
+		for _, l := range op.Removed {
+			out.Removed = append(out.Removed, string(l))
+		}
 	}
 	return out
 }
@@ -338,6 +347,7 @@ type c16Round struct {
 	Name         string
 	Events       map[string]int
 	Errors       []string
+	ErrorIDs     []string // parallel to Errors: the id the importer attached to the error event (the GitLab id of the event it failed on, or "")
 	StartErr     string
 	CursorBefore string
 	CursorAfter  string
@@ -392,6 +402,7 @@ func (cr *c16Repo) round(name string, fromZero bool, fault *gitlabsim.Fault) c16
 					msg = ev.Err.Error()
 				}
 				out.Errors = append(out.Errors, msg)
+				out.ErrorIDs = append(out.ErrorIDs, ev.EntityId.String())
 			}
 		}
 	}
@@ -670,8 +681,9 @@ func c16GroundTruth(out *c16Result, t *gitlabsim.Tracker, rd c16Round) {
 		sort.Strings(wl)
 		sort.Strings(gl)
 		if strings.Join(wl, "|") != strings.Join(gl, "|") {
-			res.find("ground-truth:labels"+sfx, "round %s: issue iid=%s has labels %q, bug has %q", rd.Name, iid, is.Labels, cp.Labels)
+			res.find("ground-truth:labels"+sfx+c16LabelCause(is), "round %s: issue iid=%s has labels %q, bug has %q; label events of the tracker: %s; ops=%s", rd.Name, iid, is.Labels, cp.Labels, c16LabelHistory(is), c16OpsBrief(bs[0]))
 		}
+		c16LabelEventsImported(res, rd, is, bs[0], sfx)
 		if cp.Author != "gitlab:"+strconv.Itoa(is.AuthorID) {
 			res.find("ground-truth:author"+sfx, "round %s: issue iid=%s author %d, bug author %s", rd.Name, iid, is.AuthorID, cp.Author)
 		}
@@ -707,6 +719,158 @@ func c16GroundTruth(out *c16Result, t *gitlabsim.Tracker, rd c16Round) {
 			if c.Author != "gitlab:"+strconv.Itoa(n.AuthorID) {
 				res.find("ground-truth:comment-author"+sfx, "round %s: issue iid=%s note %d author %d, comment author %s", rd.Name, iid, n.ID, n.AuthorID, c.Author)
 				break
+			}
+		}
+	}
+}
+
+// c16NoLabelNow is the history class "label events exist, the issue carries no label (any more)".
+const c16NoLabelNow = ":issue-carries-no-label-now"
+
+// c16LabelCause attributes a label finding to the history class of the issue.
+func c16LabelCause(is *gitlabsim.Issue) string {
+	if len(is.Labels) == 0 && len(is.LabelEvents) > 0 {
+		return c16NoLabelNow
+	}
+	return ""
+}
+
+func c16LabelHistory(is *gitlabsim.Issue) string {
+	var parts []string
+	for _, e := range is.LabelEvents {
+		parts = append(parts, fmt.Sprintf("%s %q #%d gen%d", e.Action, e.Label, e.ID, e.Gen))
+	}
+	s := strings.Join(parts, ", ")
+	if len(s) > 900 {
+		s = s[:900] + "…"
+	}
+	return "[" + s + "]"
+}
+
+// c16LabelEventsImported: every label event the tracker holds for the issue is new to a
+// repository that has imported everything up to now, so it corresponds to exactly one label
+// operation (carrying the event's id) that adds / removes that label, and there is no label
+// operation besides. Only judged for rounds in which the whole tracker was listed without error.
+func c16LabelEventsImported(res *c16Result, rd c16Round, is *gitlabsim.Issue, b c16Bug, sfx string) {
+	if len(rd.Errors) > 0 {
+		return // reported as error-on-clean-run; what is missing is a consequence
+	}
+	byID := map[string][]c16Op{}
+	for _, o := range b.Ops {
+		if o.Class == "label" {
+			byID[o.GitlabID] = append(byID[o.GitlabID], o)
+		}
+	}
+	cause := c16LabelCause(is)
+	iid := strconv.Itoa(is.IID)
+	for _, e := range is.LabelEvents {
+		res.count("label_events_compared_with_operations", 1)
+		id := strconv.Itoa(e.ID)
+		ops := byID[id]
+		delete(byID, id)
+		switch {
+		case len(ops) == 0:
+			res.find("ground-truth:label-event-not-imported"+sfx+cause, "round %s: issue iid=%s (labels now %q): no label operation for label event #%s (%s %q, generation %d); label events of the tracker: %s; ops=%s",
+				rd.Name, iid, is.Labels, id, e.Action, e.Label, e.Gen, c16LabelHistory(is), c16OpsBrief(b))
+			return
+		case len(ops) > 1:
+			res.find("ground-truth:label-event-imported-twice"+sfx, "round %s: issue iid=%s: %d label operations for label event #%s (%s %q)", rd.Name, iid, len(ops), id, e.Action, e.Label)
+			return
+		}
+		got, other := ops[0].Added, ops[0].Removed
+		if e.Action == "remove" {
+			got, other = other, got
+		}
+		if len(got) != 1 || len(other) != 0 || c16Skeleton(got[0]) != c16Skeleton(e.Label) {
+			res.find("ground-truth:label-event-imported-wrongly"+sfx, "round %s: issue iid=%s: label event #%s is %s %q, the operation is %s", rd.Name, iid, id, e.Action, e.Label, ops[0].Payload)
+			return
+		}
+	}
+	var extra []string
+	for id := range byID {
+		extra = append(extra, id)
+	}
+	sort.Strings(extra)
+	if len(extra) > 0 {
+		res.find("ground-truth:label-operation-without-event"+sfx, "round %s: issue iid=%s: label operation gitlab-id=%q (%s) corresponds to no label event of the tracker %s", rd.Name, iid, extra[0], byID[extra[0]][0].Payload, c16LabelHistory(is))
+	}
+}
+
+// c16OnlyC1 is the input class "one-line text whose only control characters are C1 controls".
+const c16OnlyC1 = ":text-with-only-c1-control-chars"
+
+// c16ErrCause attributes an error event of a fault-free run to the hostile text class of the
+// tracker artefact the importer failed on: the artefact is found by the id the importer attached
+// to the error event; an issue that could not be created carries no id and is looked for among
+// the issues that have no bug.
+func c16ErrCause(t *gitlabsim.Tracker, rd c16Round, i int) string {
+	id := ""
+	if i < len(rd.ErrorIDs) {
+		id = rd.ErrorIDs[i]
+	}
+	var texts []string
+	if id != "" {
+		for _, is := range t.Issues {
+			for _, n := range is.Notes {
+				if strconv.Itoa(n.ID) == id {
+					texts = append(texts, n.Body)
+					if n.Meaning == "description" {
+						texts = append(texts, is.Description)
+					}
+				}
+			}
+			for _, e := range is.LabelEvents {
+				if strconv.Itoa(e.ID) == id {
+					texts = append(texts, e.Label)
+				}
+			}
+		}
+	} else if strings.HasPrefix(rd.Errors[i], "issue creation:") {
+		have := map[string]bool{}
+		for _, b := range rd.Dump.Bugs {
+			have[b.IID] = true
+		}
+		for _, is := range t.Issues {
+			if !have[strconv.Itoa(is.IID)] {
+				texts = append(texts, is.Title, is.Description)
+			}
+		}
+	}
+	for _, s := range texts {
+		if gitlabsim.OnlyC1Controls(s) {
+			return c16OnlyC1
+		}
+	}
+	return ""
+}
+
+// c16CleanRunErrors reports the error events of a fault-free run over a healthy tracker.
+func c16CleanRunErrors(res *c16Result, t *gitlabsim.Tracker, rd c16Round, what string) {
+	for i, e := range rd.Errors {
+		res.find("error-on-clean-run:"+c16ErrClass(e)+c16AnyCollision(t)+c16ErrCause(t, rd, i), "%s relayed: %s (error event id %q)", what, e, rd.ErrorIDs[i])
+	}
+}
+
+// c16CountC1Texts records where the tracker holds texts of the class c16OnlyC1.
+func c16CountC1Texts(res *c16Result, t *gitlabsim.Tracker) {
+	for _, is := range t.Issues {
+		if gitlabsim.OnlyC1Controls(is.Title) {
+			res.count("only_c1_control_texts/title", 1)
+		}
+		if gitlabsim.OnlyC1Controls(is.Description) {
+			res.count("only_c1_control_texts/description", 1)
+		}
+		for _, n := range is.Notes {
+			switch {
+			case !n.System && gitlabsim.OnlyC1Controls(n.Body):
+				res.count("only_c1_control_texts/comment", 1)
+			case n.Meaning == "title" && gitlabsim.OnlyC1Controls(n.Body):
+				res.count("only_c1_control_texts/title-change-note", 1)
+			}
+		}
+		for _, e := range is.LabelEvents {
+			if gitlabsim.OnlyC1Controls(e.Label) {
+				res.count("only_c1_control_texts/label-name", 1)
 			}
 		}
 	}
@@ -821,6 +985,9 @@ func c16Delta(res *c16Result, t *gitlabsim.Tracker, gen int, a, b c16Round) {
 				if k.class == "title" {
 					cause = c16TitleCause(is)
 				}
+				if k.class == "label" {
+					cause = c16LabelCause(is)
+				}
 				res.find("incremental-missing-op:"+c16DupKey[k.class]+sfx+cause, "%s -> %s after the tracker grew: issue iid=%s: no %s operation for new tracker event id=%s; ops=%s", a.Name, b.Name, iid, k.class, k.id, c16OpsBrief(*nb))
 			}
 		}
@@ -929,6 +1096,8 @@ func c16NormaliseKeys(res *c16Result) {
 		switch {
 		case strings.Contains(f.Key, ":colliding-ids"):
 			nk = "colliding-ids"
+		case strings.Contains(f.Key, c16OnlyC1):
+			// its own input class: the key already names it
 		case strings.Contains(f.Key, "title-has-unsafe-characters"):
 			nk = "title-change-not-sanitised" // the importer's own error message
 		case strings.Contains(f.Key, ":diff-markers-in-title"):
@@ -984,9 +1153,7 @@ func c16RunCase(c c16Case) (res c16Result) {
 		res.R["first"] = r1.Log.Identities
 		res.Ref = map[string][]c16Compiled{"first": c16Digested(r1.Dump)}
 		c16CheckRound(&res, r1, "", "")
-		for _, e := range r1.Errors {
-			res.find("error-on-clean-run:"+c16ErrClass(e)+c16AnyCollision(t), "r1: first import of a healthy tracker relayed: %s", e)
-		}
+		c16CleanRunErrors(&res, t, r1, "r1: first import of a healthy tracker")
 		c16GroundTruth(&res, t, r1)
 		r2 := A.round("r2:re-import(cursor)", false, nil)
 		c16CheckRound(&res, r2, "", "")
@@ -994,21 +1161,18 @@ func c16RunCase(c c16Case) (res c16Result) {
 		r3 := A.round("r3:re-import(from zero)", true, nil)
 		c16CheckRound(&res, r3, "", "")
 		c16Idempotent(&res, r2, r3, c16AnyCollision(t))
-		for _, e := range r3.Errors {
-			res.find("error-on-clean-run:"+c16ErrClass(e)+c16AnyCollision(t), "r3: re-import from zero of a healthy tracker relayed: %s", e)
-		}
+		c16CleanRunErrors(&res, t, r3, "r3: re-import from zero of a healthy tracker")
 
 		gstats := t.Grow(growRng, c.Params)
 		for k, v := range gstats {
 			res.count("tracker_growth/"+k, v)
 		}
+		c16CountC1Texts(&res, t)
 		r4 := A.round("r4:import-after-growth", false, nil)
 		res.R["grow"] = r4.Log.Identities
 		res.Ref["grow"] = c16Digested(r4.Dump)
 		c16CheckRound(&res, r4, "", "")
-		for _, e := range r4.Errors {
-			res.find("error-on-clean-run:"+c16ErrClass(e)+c16AnyCollision(t), "r4: import after growth relayed: %s", e)
-		}
+		c16CleanRunErrors(&res, t, r4, "r4: import after growth")
 		c16Delta(&res, t, 1, r3, r4)
 		c16GroundTruth(&res, t, r4)
 		r5 := A.round("r5:re-import(cursor, grown issues listed again)", false, nil)
@@ -1026,9 +1190,7 @@ func c16RunCase(c c16Case) (res c16Result) {
 		c16CheckRound(&res, o1, "", "")
 		c16GroundTruth(&res, t, o1)
 		res.CleanImports = len(r1.Errors) == 0 && len(o1.Errors) == 0 && r1.StartErr == "" && o1.StartErr == ""
-		for _, e := range o1.Errors {
-			res.find("error-on-clean-run:"+c16ErrClass(e)+c16AnyCollision(t), "one-shot import of a healthy tracker into an empty repository relayed: %s", e)
-		}
+		c16CleanRunErrors(&res, t, o1, "one-shot import of a healthy tracker into an empty repository")
 		c16SameCompiled(&res, t, "incremental-vs-one-shot", "incremental import (base, growth) vs one-shot import into an empty repository", r4, o1)
 
 		ops := 0
@@ -1200,8 +1362,9 @@ func c16Params(seed int64, i int, thorough bool) gitlabsim.Params {
 	case 3: // many events per issue, default page size: >20 notes happen
 		p.MaxActions = 40
 		p.Issues = 1 + rng.Intn(3)
-	case 4:
+	case 4: // one-line texts whose only control characters are C1 controls, in every text place
 		p.PerPage = 3
+		p.C1Texts = true
 	case 5: // fresh self-hosted instance: every id sequence starts at 1
 		p.SmallIDs = true
 		p.Issues = 2 + rng.Intn(4)
@@ -1234,6 +1397,30 @@ func runC16(tier, replay string) int {
 	perCase := 120 * time.Second
 	base := runBatches[c16Case, c16Result]("", "c16", cases, r.Pick(1, 4), perCase, nil)
 	c16Absorb(r, cases, base, replay != "")
+	if replay == "" {
+		// the targeted input classes must have been observed (the generator plans them; a run
+		// that did not see them has not judged them)
+		sum := map[string]int{}
+		for _, oc := range base {
+			if oc.Result != nil {
+				for k, v := range oc.Result.Counters {
+					sum[k] += v
+				}
+			}
+		}
+		for _, k := range []string{
+			"tracker_base/issues-emptied-of-labels-before-their-first-import",
+			"tracker_growth/issues-emptied-of-labels-before-their-first-import",
+			"tracker_growth/issues-emptied-of-labels-between-rounds",
+			"label_events_compared_with_operations",
+			"only_c1_control_texts/title", "only_c1_control_texts/description", "only_c1_control_texts/comment",
+			"only_c1_control_texts/title-change-note", "only_c1_control_texts/label-name",
+		} {
+			if sum[k] == 0 && !(k == "tracker_growth/issues-emptied-of-labels-before-their-first-import" && !r.Thorough()) {
+				r.Inconclusive("input class not observed in any base case: " + k)
+			}
+		}
+	}
 
 	// phase 2: fault enumeration over the request identities the dry runs recorded
 	var fcases []c16Case
@@ -1328,9 +1515,10 @@ func runC16(tier, replay string) int {
 	r.Extra("time_model", "tracker timestamps: base generation 2020, growth generation 2100; importer cursors (wall clock) always fall in between; faulted runs start from a planted 2021 cursor; the oracle compares cursors for equality only")
 	r.Extra("fault_modes", "403 and 404 once (enumerated over every request identity of the first import and of the import after growth), dropped connection and truncated body (quick: one per endpoint class, thorough: rotated over all identities), 500 once (healed by go-gitlab's retry) and persistent 500 (sampled)")
 
-	rule := "base cases: generated trackers (1..8 issues; comments, edits, title/description changes, label and state events, old-style state notes, ignored system notes, Ghost user, hostile text) imported in 6 rounds (import, re-import by cursor, re-import from zero, growth, import, re-import x2) plus a one-shot import; fault cases: one (round, request identity, failure mode) each, followed by a clean run and compared with a never-failed import. non-trivial = base case that imported operations beyond the creations, or fault case whose fault was actually hit; distinct = distinct shape signature (base: sizes, page size, id flavour, pages, #identities, event-kind set; fault: round/mode/endpoint class/page/outcome)"
+	rule := "base cases: generated trackers (1..8 issues; comments, edits, title/description changes, label and state events, old-style state notes, ignored system notes, Ghost user, hostile text incl. one-line texts with only C1 control characters; planned label histories: all labels removed again before the first import of the issue, the only label removed between two rounds) imported in 6 rounds (import, re-import by cursor, re-import from zero, growth, import, re-import x2) plus a one-shot import; fault cases: one (round, request identity, failure mode) each, followed by a clean run and compared with a never-failed import. non-trivial = base case that imported operations beyond the creations, or fault case whose fault was actually hit; distinct = distinct shape signature (base: sizes, page size, id flavour, pages, #identities, event-kind set; fault: round/mode/endpoint class/page/outcome)"
 	return r.Finish(rule, r.Pick(20, 60), []string{
 		"gitlabsim reproduces the GitLab v4 wire format as consumed by go-gitlab v0.107.0 (fields, separate id sequences per table, offset pagination headers, updated_after inclusive)",
+		"every label event GitLab lists for an issue corresponds to exactly one label operation (GitLab's resource_label_events is the full history, whatever labels the issue carries now)",
 		"text is compared with the tracker after removing control (Cc), format (Cf) and white-space characters on both sides, so any sanitising of those is accepted",
 		"a 5xx answered correctly on the client library's retry is not a failed request",
 	})
